@@ -99,6 +99,73 @@ theorem runOps_sim {tick : Bool} {w : World} (hw : WheelInv w) (hs : Sim tick w)
 
 /-! ### the do/while of call_out() -/
 
+/-- the live branch of `fireOne` up to the `fire` event: the oracle picks the same entry as call_out() -/
+theorem fire_emit_sim {w : World} (hw : WheelInv w) (hs : Sim true w) {cop : Entry} {rest : List Entry}
+    (hl : w.slots (slotOf w.cot) = cop :: rest) (hz : cop.delta = 0) (hdead' : isDead w cop.c.owner = false) :
+    Sim true (emit { setSlot w (slotOf w.cot) rest with giver := liveGiver w cop.c.giver, busy := 1 }
+        (.fire (vnow w) cop.c.owner cop.c.fn cop.c.tag (liveGiver w cop.c.giver))) ∧
+      WheelInv (emit { setSlot w (slotOf w.cot) rest with giver := liveGiver w cop.c.giver, busy := 1 }
+        (.fire (vnow w) cop.c.owner cop.c.fn cop.c.tag (liveGiver w cop.c.giver))) := by
+  have hcum : cum 0 (w.slots (slotOf w.cot)) = [] ++ (0, cop.c) :: cum 0 rest := by
+    rw [hl]; exact cum_pop_zero _ _ hz
+  have hx : ((0 : Int), cop.c) ∈ cum 0 (w.slots (slotOf w.cot)) := by rw [hcum]; simp
+  have hxw : InWheel w cop.c := ⟨_, 0, hx⟩
+  have ex := hw.ent _ _ hx
+  have hdue : cop.c.due = w.cot := (ex.zero_slot (Int.le_refl _)).2.2
+  have hmem := hs.wheelPend _ hxw
+  have h1 := StepOK.setSlot_sublist hw (slotOf w.cot) rest (by rw [hcum]; exact List.sublist_cons_self _ _)
+  -- the oracle picks the same entry
+  have hQ : ((toPend cop.c).owner == cop.c.owner && (toPend cop.c).tag == cop.c.tag &&
+      (toPend cop.c).fn == cop.c.fn) = true := by
+    simp [toPend]
+  cases hmin : minDue (fun e => e.owner == cop.c.owner && e.tag == cop.c.tag && e.fn == cop.c.fn)
+      (jstate w.out).pend with
+  | none => have := minDue_none hmin _ hmem; rw [hQ] at this; cases this
+  | some e =>
+    obtain ⟨m1, m2, m3⟩ := minDue_some hmin hs.pendSorted
+    have hee : e = toPend cop.c := by
+      simp only [Bool.and_eq_true, beq_iff_eq] at m2
+      obtain ⟨c, hc1, hc2⟩ := pend_alive_inWheel hs m1 (by rw [m2.1.1]; exact hdead')
+      subst hc2
+      have hle := (m3 _ hmem hQ).1
+      obtain ⟨s', D', hm'⟩ := hc1
+      have ec := hw.ent s' _ hm'
+      have hcd : c.due = cop.c.due := by
+        have := ec.notPast
+        simp only [toPend] at hle
+        simp only [] at this
+        omega
+      rcases first_has_largest_handle hw hcum ⟨s', D', hm'⟩ hcd (by simp) with hcx | hlt
+      · rw [hcx]
+      · exfalso
+        have := (m3 _ hmem hQ).2 (by simp only [toPend]; omega)
+        simp only [toPend] at this
+        simp only [] at hlt
+        omega
+    subst hee
+    obtain ⟨e', rest', hro⟩ := removeOne_isSome_of_mem (q := fun x => x == toPend cop.c) hmem (by simp)
+    obtain ⟨_, r2, _⟩ := removeOne_some hro hs.pendSorted
+    have : e' = toPend cop.c := by simpa using r2
+    subst this
+    have hnotearly : ¬ ((toPend cop.c).due > vnow w) := by
+      have := hw.cot_le
+      simp only [toPend, vnow]; omega
+    have hwant : liveGiverJ (jstate w.out) (toPend cop.c).giver = liveGiver w cop.c.giver := by
+      unfold liveGiver liveGiverJ toPend
+      cases cop.c.giver with
+      | none => rfl
+      | some g => simp only [isDeadJ_eq hs]
+    have hj : judgeStep (jstate w.out) (.fire (vnow w) cop.c.owner cop.c.fn cop.c.tag (liveGiver w cop.c.giver)) =
+        { jstate w.out with pend := rest' } := by
+      simp only [judgeStep, hs.inTick, if_true, hmin, hnotearly, if_false, hwant, isDeadJ_eq hs, hdead', hro,
+        Bool.false_eq_true, beq_self_eq_true]
+    have hs1 : Sim true (emit { setSlot w (slotOf w.cot) rest with giver := liveGiver w cop.c.giver, busy := 1 }
+        (.fire (vnow w) cop.c.owner cop.c.fn cop.c.tag (liveGiver w cop.c.giver))) := by
+      refine Sim.emit (w := w) rfl ?_
+      rw [hj]
+      exact (SimJ.remove_pair hw hs hcum (by simp) hro).congr rfl rfl rfl rfl rfl
+    exact ⟨hs1, h1.inv.congr rfl rfl rfl rfl⟩
+
 theorem fireOne_sim (sc : Scripts) {w : World} (hw : WheelInv w) (hs : Sim true w) {cop : Entry} {rest : List Entry}
     (hl : w.slots (slotOf w.cot) = cop :: rest) (hz : cop.delta = 0) :
     Sim true (fireOne sc (setSlot w (slotOf w.cot) rest) cop) := by
@@ -110,7 +177,8 @@ theorem fireOne_sim (sc : Scripts) {w : World} (hw : WheelInv w) (hs : Sim true 
   have hdue : cop.c.due = w.cot := (ex.zero_slot (Int.le_refl _)).2.2
   have hmem := hs.wheelPend _ hxw
   have h1 := StepOK.setSlot_sublist hw (slotOf w.cot) rest (by rw [hcum]; exact List.sublist_cons_self _ _)
-  unfold fireOne
+  rw [fireOne_eq_spec]
+  unfold fireOneSpec
   by_cases hdead : isDead (setSlot w (slotOf w.cot) rest) cop.c.owner = true
   · rw [if_pos hdead]
     -- dropped (silently, or with the "owner destructed" error of a function pointer): the oracle keeps it as
@@ -137,60 +205,9 @@ theorem fireOne_sim (sc : Scripts) {w : World} (hw : WheelInv w) (hs : Sim true 
     have hdead' : isDead w cop.c.owner = false := by
       have : isDead (setSlot w (slotOf w.cot) rest) cop.c.owner = isDead w cop.c.owner := rfl
       rw [← this]; simpa using hdead
-    -- the oracle picks the same entry
-    have hQ : ((toPend cop.c).owner == cop.c.owner && (toPend cop.c).tag == cop.c.tag &&
-        (toPend cop.c).fn == cop.c.fn) = true := by
-      simp [toPend]
-    cases hmin : minDue (fun e => e.owner == cop.c.owner && e.tag == cop.c.tag && e.fn == cop.c.fn)
-        (jstate w.out).pend with
-    | none => have := minDue_none hmin _ hmem; rw [hQ] at this; cases this
-    | some e =>
-      obtain ⟨m1, m2, m3⟩ := minDue_some hmin hs.pendSorted
-      have hee : e = toPend cop.c := by
-        simp only [Bool.and_eq_true, beq_iff_eq] at m2
-        obtain ⟨c, hc1, hc2⟩ := pend_alive_inWheel hs m1 (by rw [m2.1.1]; exact hdead')
-        subst hc2
-        have hle := (m3 _ hmem hQ).1
-        obtain ⟨s', D', hm'⟩ := hc1
-        have ec := hw.ent s' _ hm'
-        have hcd : c.due = cop.c.due := by
-          have := ec.notPast
-          simp only [toPend] at hle
-          simp only [] at this
-          omega
-        rcases first_has_largest_handle hw hcum ⟨s', D', hm'⟩ hcd (by simp) with hcx | hlt
-        · rw [hcx]
-        · exfalso
-          have := (m3 _ hmem hQ).2 (by simp only [toPend]; omega)
-          simp only [toPend] at this
-          simp only [] at hlt
-          omega
-      subst hee
-      obtain ⟨e', rest', hro⟩ := removeOne_isSome_of_mem (q := fun x => x == toPend cop.c) hmem (by simp)
-      obtain ⟨_, r2, _⟩ := removeOne_some hro hs.pendSorted
-      have : e' = toPend cop.c := by simpa using r2
-      subst this
-      have hnotearly : ¬ ((toPend cop.c).due > vnow w) := by
-        have := hw.cot_le
-        simp only [toPend, vnow]; omega
-      have hwant : liveGiverJ (jstate w.out) (toPend cop.c).giver = liveGiver w cop.c.giver := by
-        unfold liveGiver liveGiverJ toPend
-        cases cop.c.giver with
-        | none => rfl
-        | some g => simp only [isDeadJ_eq hs]
-      have hj : judgeStep (jstate w.out) (.fire (vnow w) cop.c.owner cop.c.fn cop.c.tag (liveGiver w cop.c.giver)) =
-          { jstate w.out with pend := rest' } := by
-        simp only [judgeStep, hs.inTick, if_true, hmin, hnotearly, if_false, hwant, isDeadJ_eq hs, hdead', hro,
-          Bool.false_eq_true, beq_self_eq_true]
-      have hs1 : Sim true (emit { setSlot w (slotOf w.cot) rest with giver := liveGiver w cop.c.giver, busy := 1 }
-          (.fire (vnow w) cop.c.owner cop.c.fn cop.c.tag (liveGiver w cop.c.giver))) := by
-        refine Sim.emit (w := w) rfl ?_
-        rw [hj]
-        exact (SimJ.remove_pair hw hs hcum (by simp) hro).congr rfl rfl rfl rfl rfl
-      have hrun := runOps_sim (w := emit { setSlot w (slotOf w.cot) rest with giver := liveGiver w cop.c.giver, busy := 1 }
-          (.fire (vnow w) cop.c.owner cop.c.fn cop.c.tag (liveGiver w cop.c.giver)))
-        (h1.inv.congr rfl rfl rfl rfl) hs1 cop.c.owner (sc cop.c.owner cop.c.tag) hdead'
-      exact SimJ.congr hrun rfl rfl rfl rfl rfl
+    obtain ⟨hs1, hw1⟩ := fire_emit_sim hw hs hl hz hdead'
+    have hrun := runOps_sim hw1 hs1 cop.c.owner (sc cop.c.owner cop.c.tag) hdead'
+    exact SimJ.congr hrun rfl rfl rfl rfl rfl
 
 theorem visit_sim (sc : Scripts) (tm : Nat) : ∀ (fuel : Nat) (w : World), WheelInv w → w.cot ≠ 0 →
     tm = slotOf w.cot → (∃ cop rest, w.slots tm = cop :: rest ∧ cop.delta = 0) → Sim true w →
